@@ -53,10 +53,15 @@ func (x *xtr) afterLoop(t ast.Node, kind, call string, state []string, rest func
 }
 
 func (x *xtr) polyBinder() string {
+	var ps []string
 	if x.poly {
-		return "{α : Type} "
+		ps = append(ps, "α")
 	}
-	return ""
+	ps = append(ps, x.tparams...)
+	if len(ps) == 0 {
+		return ""
+	}
+	return "{" + strings.Join(ps, " ") + " : Type} "
 }
 
 // `for ; i < n; i++` whose body assigns neither i nor a variable of n: the fuel is known
@@ -544,7 +549,15 @@ func translateExt(fset *token.FileSet, load fileLoader, sp spec, known map[strin
 	}
 	x := &xtr{fset: fset, sp: sp, env: map[string]*xty{}, structs: map[string]*xstruct{}, consts: map[string]xval{},
 		shared: map[string]bool{}, loops: map[ast.Stmt]*loopInfo{}, ptrParams: map[string]bool{}, params: map[string]bool{}, prims: map[string]bool{},
-		aliases: map[string]*xty{}, known: known, uses: map[string]useSpec{}}
+		aliases: map[string]*xty{}, known: known, uses: map[string]useSpec{}, opaque: map[string]string{}}
+	for _, o := range sp.Opaque {
+		nt := strings.SplitN(o, "=", 2)
+		if len(nt) != 2 {
+			fail(token.Position{Filename: sp.File}, "spec.Opaque entry %q", o)
+		}
+		x.opaque[nt[0]] = nt[1]
+		x.tparams = append(x.tparams, nt[1])
+	}
 	for _, u := range sp.Uses {
 		x.uses[u.Go] = u
 	}
@@ -622,6 +635,7 @@ func translateExt(fset *token.FileSet, load fileLoader, sp spec, known map[strin
 	for _, p := range sp.Prims {
 		if lt, ok := primTypes[p]; ok { // polymorphic library function, used by name
 			x.prims[p] = true
+			x.poly = x.poly || strings.Contains(lt, "Go.Any α")
 			primBinders = append(primBinders, fmt.Sprintf("(%s : %s)", p, lt))
 			continue
 		}
@@ -666,13 +680,39 @@ func translateExt(fset *token.FileSet, load fileLoader, sp spec, known map[strin
 	if len(oracle) != 0 {
 		x.bad(fd, "spec.Oracles names no parameter: %v", sortedNames(oracle))
 	}
+	var inits []string
 	if fd.Type.Results != nil {
 		for _, r := range fd.Type.Results.List {
-			if len(r.Names) != 0 {
-				x.bad(fd, "named results")
+			ty := x.goTy(r.Type)
+			x.poly = x.poly || ty.mentionsAny()
+			if len(r.Names) == 0 {
+				if x.namedRes != nil {
+					x.bad(fd, "named and unnamed results")
+				}
+				x.results = append(x.results, ty)
+				continue
 			}
-			x.results = append(x.results, x.goTy(r.Type))
-			x.poly = x.poly || x.results[len(x.results)-1].mentionsAny()
+			// named results: local variables that start at their zero value; the function returns the
+			// tuple of their values (nothing is dropped on an error: the error is an Option String)
+			if len(x.results) != len(x.namedRes) {
+				x.bad(fd, "named and unnamed results")
+			}
+			if ty.k == kErr {
+				ty = tErrOpt
+			}
+			for _, n := range r.Names {
+				if n.Name == "_" {
+					x.bad(fd, "blank named result")
+				}
+				x.declare(n, n.Name, ty)
+				z := "none"
+				if ty.k != kErrOpt {
+					z = x.zero(n, ty)
+				}
+				inits = append(inits, fmt.Sprintf("let %s : %s := %s", ident(n.Name), ty.lean(), z))
+				x.results = append(x.results, ty)
+				x.namedRes = append(x.namedRes, n.Name)
+			}
 		}
 		for i, r := range x.results {
 			if r.k == kErr && i != len(x.results)-1 {
@@ -683,7 +723,6 @@ func translateExt(fset *token.FileSet, load fileLoader, sp spec, known map[strin
 	// state returned beside the results
 	asg := map[string]bool{}
 	x.assigned(fd.Body.List, map[string]bool{}, asg)
-	var inits []string
 	if x.recv != "" && asg[x.recv] {
 		if _, isPtr := fd.Recv.List[0].Type.(*ast.StarExpr); isPtr {
 			x.extras = append(x.extras, x.recv)
@@ -760,8 +799,11 @@ func translateExt(fset *token.FileSet, load fileLoader, sp spec, known map[strin
 	for _, u := range sp.Uses {
 		moduleImports[sp.Module] = append(moduleImports[sp.Module], "SemaModel.Generated."+u.Module)
 	}
+	if x.usesRtX {
+		moduleImports[sp.Module] = append(moduleImports[sp.Module], "SemaModel.Base.GoRtX")
+	}
 	// callable from functions translated later into the same module, if it is a plain function
-	if !x.hasExit && len(x.extras) == 0 && len(pre) == 0 && fd.Recv == nil {
+	if !x.hasExit && len(x.extras) == 0 && len(pre) == 0 && fd.Recv == nil && x.namedRes == nil && len(x.tparams) == 0 {
 		ft := &xty{k: kFunc, results: x.results}
 		for _, p := range fd.Type.Params.List {
 			for range p.Names {
@@ -885,6 +927,7 @@ func (x *xtr) inPlaceParams(fd *ast.FuncDecl) []string {
 
 // library functions that stay abstract: they become leading parameters of the translated function
 var primTypes = map[string]string{
+	"fmtAny":         "Go.Any α → String", // fmt's %v of an interface value
 	"sortFunc":       "{α : Type} → List α → (α → α → Int) → List α",
 	"sortStableFunc": "{α : Type} → List α → (α → α → Int) → List α",
 }
